@@ -120,6 +120,16 @@ def run(chk):
     P10.legacy_suites(chk, rng, R, set(R["RPM_ARCHES"]), N[chk.tier], full=True)
     # 3. treeinfo 1.1 / 1.0 (down-converted tables) and pre-productmd [general]-only trees
     tconts = [{"content": DT.gen_treeinfo(rng, R)} for _ in range(N[chk.tier])]
+    for tc in tconts:
+        # format 0.3 cannot express binary paths in a source tree: make most source trees expressible (at every depth)
+        if tc["content"]["tree"]["arch"] == "src" and rng.random() < 0.8:
+            def strip(v):
+                v["paths"].pop("packages", None)
+                v["paths"].pop("repository", None)
+                for c in v["children"].values():
+                    strip(c)
+            for v in tc["content"]["variants"].values():
+                strip(v)
     ir = core.ImplRunner("docs_corrupt", fn="impl_valid_treeinfo", per_case_timeout=20.0)
     try:
         tables = ir.run(tconts)
